@@ -2,9 +2,13 @@
   C04 — static playback is sample-accurate: slice, loop, reverse, seek, resample, end.
   Property theorems only; statements are about the models in Model/Transport.lean and
   Model/StaticSound.lean (the definitions the twin runs), interpreted over ℕ / ℝ.
-  In-domain hypotheses kept explicit everywhere: a loop region is valid (`ls < le ≤ n`), the slice
-  lies inside the data, a reversed sound starts inside the sound.  Outside them the code faults
-  (see the `C04_fault_*` theorems at the end and notes/C04.md).
+  The only in-domain hypothesis left is that the loop region in force is valid (`ls < le ≤ n`) or
+  absent — and `Transport::new` / `set_loop_region` drop every empty or inverted region
+  (`C04_transport_loop_never_degenerate`).  ANY slice (reaching past the data: clamped to it; inverted:
+  empty), any start position in either direction and any empty sound are in the domain: the panics
+  they used to cause are repaired (notes/C04.md), and the old `C04_fault_*` theorems about them are
+  replaced by positive ones (`C04_never_outside_slice`, `C04_transport_new_any`,
+  `C04_any_sound_starts`).
 -/
 import KiraModel.Proofs.TransportLemmas
 import KiraModel.Proofs.StaticLemmas
@@ -212,19 +216,30 @@ theorem C04_transport_inv (n : Nat) (ops : List TOp) (hops : ∀ op ∈ ops, op.
     obtain ⟨t2, h2, hv2, hi2⟩ := ih (fun o ho => hops o (by simp [ho])) t1 hv1 hi1
     exact ⟨t2, by simp [Transport.applyAll, h1, h2], hv2, hi2⟩
 
-/-- `Transport::new` starts inside the sound (forwards: `start < n`; reversed: always, when it does
-    not underflow), playing, at the mirrored index when reversed. -/
+/-- `Transport::new` never fails — for ANY start position, length (0 included) and direction: it is
+    playing, keeps the valid part of the loop region, and starts at the start position, or reversed at
+    the mirrored index `n − 1 − start`, saturating at frame 0 when the start position is at or past the
+    end (the repaired behaviour; `num_frames - 1 - start_position` used to underflow there). -/
+theorem C04_transport_new_any (start n : Nat) (lr : Option (Nat × Nat)) (rev : Bool) :
+    ∃ t, Transport.new start lr rev n = .ok t ∧ t.playing = true
+      ∧ t.loopRegion = Transport.validLoop lr
+      ∧ t.position = (if rev then n - 1 - start else start)
+      ∧ (rev = true → n ≤ start → t.position = 0)
+      ∧ (rev = true → 0 < n → t.Inside n) := by
+  refine ⟨_, rfl, rfl, rfl, rfl, ?_, ?_⟩
+  · intro hr hn; simp only [hr, if_true]; omega
+  · intro hr hn _; simp only [hr, if_true]; omega
+
+/-- `Transport::new` with a start position inside the sound starts inside the sound (forwards: at
+    `start`; reversed: at the mirrored index `n − 1 − start`). -/
 theorem C04_transport_new (start n : Nat) (lr : Option (Nat × Nat)) (rev : Bool) (h : start < n) :
     ∃ t, Transport.new start lr rev n = .ok t ∧ t.Inside n ∧ t.playing = true
       ∧ t.loopRegion = Transport.validLoop lr
       ∧ t.position = if rev then n - 1 - start else start := by
-  unfold Transport.new
+  refine ⟨_, rfl, fun _ => ?_, rfl, rfl, rfl⟩
   cases rev with
-  | false => exact ⟨_, rfl, fun _ => h, rfl, rfl, rfl⟩
-  | true =>
-    have : start + 1 ≤ n := h
-    simp only [if_true, this]
-    exact ⟨_, rfl, fun _ => by simp; omega, rfl, rfl, rfl⟩
+  | false => exact h
+  | true => simp only [if_true]; omega
 
 /-- an empty or inverted loop region never reaches the wrap loops: after `new` and after
     `set_loop_region` the transport has no loop region or one with `start < end` — for ANY requested
@@ -247,15 +262,8 @@ theorem C04_transport_loop_never_degenerate (lr : Option (Nat × Nat)) :
   refine ⟨h1, fun t ls le h => h1 ls le (by simpa [Transport.setLoopRegion] using h), ?_⟩
   intro start rev n t ls le hnew hl
   unfold Transport.new at hnew
-  cases rev with
-  | false =>
-    simp only [Bool.false_eq_true, if_false, Except.ok.injEq] at hnew
-    subst hnew; exact h1 ls le hl
-  | true =>
-    simp only [if_true] at hnew
-    split at hnew
-    · simp only [Except.ok.injEq] at hnew; subst hnew; exact h1 ls le hl
-    · simp at hnew
+  simp only [Except.ok.injEq] at hnew
+  subst hnew; exact h1 ls le hl
 
 /-- non-vacuity: a 5-frame sound looping [1,4) walks 0 1 2 3 1 2 3 … -/
 example : Transport.applyAll ⟨0, some (1, 4), true⟩ 5 [.inc, .inc, .inc, .inc, .inc] = .ok ⟨2, some (1, 4), true⟩ := by
@@ -283,25 +291,49 @@ theorem C04_hermite_not_cubics : hermite ((-1) ^ 3) 0 1 (2 ^ 3) (1 / 4) ≠ (1 /
 
 /-! ### the slice -/
 
-/-- **never reads outside the slice**: with the slice inside the data, a lookup never faults; for an
-    index inside the sound it returns exactly the data frame at `slice start + index`, which lies in
-    `[slice start, slice end)`; for any other index it returns nothing (the caller substitutes
-    silence) — never a frame from outside the slice. -/
-theorem C04_never_outside_slice (s : StaticSound ℝ) (h : s.SliceOk) (i : Nat) :
+/-- **never reads outside the slice, for ANY slice** (inside the data, reaching past it, starting past
+    it, inverted, empty — the repaired behaviour: the slice is clamped to the data): a lookup never
+    faults; for an index inside the sound (`i < num_frames`) it returns exactly the data frame at
+    `slice start + index`, which lies inside the data and in `[slice start, slice end)`; for any other
+    index it returns nothing (the caller substitutes silence) — never a frame from outside the slice,
+    never an out-of-bounds index. -/
+theorem C04_never_outside_slice (s : StaticSound ℝ) (i : Nat) :
     (i < s.nFrames → ∃ f, frameAtIndex i s.frames s.slice = .ok (some f) ∧ s.frames[i + s.sliceStart]? = some f
-        ∧ s.sliceStart ≤ i + s.sliceStart ∧ i + s.sliceStart < s.sliceStart + s.nFrames)
+        ∧ s.sliceStart ≤ i + s.sliceStart ∧ i + s.sliceStart < s.sliceStart + s.nFrames
+        ∧ i + s.sliceStart < s.frames.size)
     ∧ (s.nFrames ≤ i → frameAtIndex i s.frames s.slice = .ok none) := by
-  refine ⟨fun hi => ?_, (StaticSound.frameAtIndex_ok s h i).2⟩
-  obtain ⟨f, h1, h2, _⟩ := (StaticSound.frameAtIndex_ok s h i).1 hi
-  exact ⟨f, h1, h2, by omega, by omega⟩
+  refine ⟨fun hi => ?_, (StaticSound.frameAtIndex_ok s i).2⟩
+  obtain ⟨f, h1, h2, h3⟩ := (StaticSound.frameAtIndex_ok s i).1 hi
+  exact ⟨f, h1, h2, by omega, by omega, h3⟩
 
-/-- what enters the interpolator's window is the source frame under the play head, or silence. -/
-theorem C04_pushed_frame_is_source (s : StaticSound ℝ) (h : s.SliceOk) :
+/-- **`num_frames` is the clamped slice**: it never fails; without a slice it is the length of the
+    data; with a slice `(a, b)` it is `min b len − a` (saturating): `b − a` when the slice lies inside
+    the data, the part that exists when it reaches past the end, 0 when it is inverted or starts at or
+    past the end — and `slice start + num_frames` never exceeds the data unless the sound is empty. -/
+theorem C04_num_frames_clamped (len : Nat) (slice : Option (Nat × Nat)) :
+    ∃ n, numFrames len slice = .ok n ∧ n ≤ len
+      ∧ (slice = none → n = len)
+      ∧ ∀ a b, slice = some (a, b) →
+          n = min b len - a ∧ (a ≤ b → b ≤ len → n = b - a) ∧ (b ≤ a → n = 0) ∧ (len ≤ a → n = 0)
+            ∧ (0 < n → a + n ≤ len ∧ a + n ≤ b) := by
+  cases slice with
+  | none => exact ⟨len, rfl, le_refl _, fun _ => rfl, fun a b h => (by cases h)⟩
+  | some ab =>
+    obtain ⟨a, b⟩ := ab
+    refine ⟨min b len - a, rfl, by omega, fun h => (by cases h), fun a' b' h => ?_⟩
+    simp only [Option.some.injEq, Prod.mk.injEq] at h
+    obtain ⟨rfl, rfl⟩ := h
+    refine ⟨rfl, fun _ _ => by omega, fun _ => by omega, fun _ => by omega, fun _ => by omega⟩
+
+/-- what enters the interpolator's window is the source frame under the play head, or silence —
+    for any slice. -/
+theorem C04_pushed_frame_is_source (s : StaticSound ℝ) :
     StaticSound.pushedFrame s = StaticSound.sourceAt s s.transport :=
-  StaticSound.pushedFrame_eq s h
+  StaticSound.pushedFrame_eq s
 
-/-- **in-domain sounds never fault**: slice inside the data and a valid (or no) loop region: any
-    number of position steps succeeds. -/
+/-- **in-domain sounds never fault** — and the domain is now every slice, every start position and
+    either direction: with a valid (or no) loop region in force, any number of position steps
+    succeeds. -/
 theorem C04_in_domain_never_faults (s : StaticSound ℝ) (h : s.InDomain) (k : Nat) :
     ∃ s', StaticSound.updN k s = .ok s' ∧ s'.InDomain :=
   StaticSound.updN_total k s h
@@ -371,24 +403,24 @@ theorem C04_rate1_identity (fuel : Nat) (hfuel : 2 ≤ fuel) (d : StaticSoundDat
     (by rw [hsc.startTime]; exact hst0) (by rw [hsc.frac]; exact hfr0)
     (StaticSound.updN_endInv 3 s0 s hi0 h3) (by rw [hsc.sampleRate, hsr]; exact hunit) hrun
   refine ⟨hl, fun j hj => ?_⟩
-  obtain ⟨sj, hsj, hdj⟩ := StaticSound.updN_total j s0 hdom
-  refine ⟨sj.transport, StaticSound.updN_transport j s0 sj hdom.1 hsj, ?_⟩
+  obtain ⟨sj, hsj, _⟩ := StaticSound.updN_total j s0 hdom
+  refine ⟨sj.transport, StaticSound.updN_transport j s0 sj hsj, ?_⟩
   rw [hh j hj, StaticSound.heardAt_primed s0 s h3 j, hsj]
   simp only []
   have hscj := StaticSound.updN_sameConfig j s0 sj hsj
-  rw [StaticSound.pushedFrame_eq sj hdj.1]
+  rw [StaticSound.pushedFrame_eq sj]
   unfold StaticSound.sourceAt StaticSound.nFrames StaticSound.sliceStart
   rw [hscj.slice, hscj.frames]
 
 /-- **then it ends**: Stopped is reported after the interpolator's window has drained — exactly 4
     position steps after the transport ended (forwards: `max (n − p) 1` steps from play head `p`), not
     earlier, not later.  (The reverse direction is `C03_finite_sound_stops_backward`.) -/
-theorem C04_ends_after_drain (s : StaticSound ℝ) (hs : s.SliceOk) (hp : s.transport.playing = true)
+theorem C04_ends_after_drain (s : StaticSound ℝ) (hp : s.transport.playing = true)
     (hl : s.transport.loopRegion = none) (hbw : s.isPlayingBackwards = false) :
     (∃ s', StaticSound.updN (max (s.nFrames - s.transport.position) 1 + 4) s = .ok s' ∧ s'.IsStopped)
       ∧ ∀ j, j < max (s.nFrames - s.transport.position) 1 + 4 →
           ∃ sj, StaticSound.updN j s = .ok sj ∧ sj.core = s.core :=
-  StaticSound.forward_ends _ s hs hp hl hbw rfl
+  StaticSound.forward_ends _ s hp hl hbw rfl
 
 /-- **the window never holds a foreign frame, for every history**: starting from a window of slice
     frames / silence (e.g. a new sound), after *any* sequence of handle commands (seeks, loop-region
@@ -396,10 +428,10 @@ theorem C04_ends_after_drain (s : StaticSound ℝ) (hs : s.SliceOk) (hp : s.tran
     silence or a data frame from inside the slice — so the output is always an interpolation of slice
     frames only. -/
 theorem C04_window_stays_inside_slice (fuel : Nat) (ops : List (StaticSound.Op ℝ)) (s s' : StaticSound ℝ)
-    (outs : List (Frame ℝ)) (hs : s.SliceOk) (hw : s.WinOk) (h : s.run fuel ops = .ok (s', outs)) :
+    (outs : List (Frame ℝ)) (hw : s.WinOk) (h : s.run fuel ops = .ok (s', outs)) :
     s'.WinOk ∧ s'.frames = s.frames ∧ s'.slice = s.slice := by
   have he := StaticSound.run_evolves fuel ops s s' outs h
-  exact ⟨he.win hs hw, he.frames, he.slice⟩
+  exact ⟨he.win hw, he.frames, he.slice⟩
 
 /-- a new sound's window is empty (all silence). -/
 theorem C04_new_window (i : Nat) (s : StaticSound ℝ) (h : s.resampler = Resampler.new i) : s.WinOk := by
@@ -424,9 +456,9 @@ theorem C04_seek_lands (s : StaticSound ℝ) (hd : s.InDomain) (x : ℝ) :
       ∧ (s.core.psm.playbackState.isAdvancing = true → s'.resampler.f3.frameIndex = s'.transport.position
           ∧ s'.resampler.f2 = s.resampler.f3)
       ∧ (s.core.psm.playbackState.isAdvancing = false → s'.resampler = s.resampler) := by
-  obtain ⟨hs, hv⟩ := hd
+  have hv : s.transport.ValidLoop s.nFrames := hd
   unfold StaticSound.seekTo StaticSound.seekToIndex
-  simp only [StaticSound.numFrames_ok s hs, toNatSat_real, ofNat_real]
+  simp only [StaticSound.numFrames_ok s, toNatSat_real, ofNat_real]
   set idx := ⌊x * (s.sampleRate : ℝ)⌋₊
   have hseek : ∃ t', s.transport.seekTo idx s.nFrames = .ok t' ∧ t'.position = seekLanding s.transport idx
       ∧ t'.loopRegion = s.transport.loopRegion := by
@@ -441,7 +473,7 @@ theorem C04_seek_lands (s : StaticSound ℝ) (hd : s.InDomain) (x : ℝ) :
   simp only [ht]
   by_cases hadv : s.core.psm.playbackState.isAdvancing = true
   · simp only [hadv, if_true]
-    obtain ⟨s1, h1⟩ := StaticSound.pushFrame_total { s with transport := t' } hs
+    obtain ⟨s1, h1⟩ := StaticSound.pushFrame_total { s with transport := t' }
     obtain ⟨fo, hfo⟩ := StaticSound.pushFrame_shape _ s1 h1
     refine ⟨s1, h1, by rw [hfo]; exact hpos, by rw [hfo]; exact hlr, by rw [hfo], fun _ => ?_, fun h => ?_⟩
     · rw [hfo]; exact ⟨rfl, rfl⟩
@@ -531,8 +563,8 @@ theorem C04_reported_position (s s' : StaticSound ℝ) (hsr : 0 < s.sampleRate) 
   have : (s.sampleRate : ℝ) ≠ 0 := by positivity
   field_simp
 
-/-! ### outside the domain: what the explicit hypotheses exclude (each reproduced on the real code,
-    see notes/C04.md) -/
+/-! ### degenerate loop regions: unreachable since the repair (`C04_transport_loop_never_degenerate`);
+    what the wrap loops would do with one, kept as statements about the model -/
 
 /-- **empty loop region**: once the play head reaches an empty region `(a, a)` the increment loop never
     exits (`position -= 0`): the model reports `hang`; kira's audio thread spins. -/
@@ -554,25 +586,51 @@ theorem C04_fault_inverted_loop_overflows (t : Transport) (n ls le : Nat) (hp : 
   have : ¬ t.position + 1 < le := by omega
   simp [this, hinv]
 
-/-- **reverse with start position ≥ length**: `num_frames - 1 - start_position` underflows in
-    `Transport::new`, on the caller's thread. -/
-theorem C04_fault_reverse_start_overflows (start n : Nat) (lr : Option (Nat × Nat)) (h : n ≤ start) :
-    Transport.new start lr true n = .error .overflow := by
-  unfold Transport.new
-  have : ¬ start + 1 ≤ n := by omega
+/-! ### repaired: what used to be outside the domain
+
+  `C04_fault_reverse_start_overflows`, `C04_fault_slice_outside_data` (and the inverted-slice overflow of
+  `num_frames`) described panics of the code; the code was repaired, and the statements below are their
+  positive replacements (together with `C04_never_outside_slice`, `C04_num_frames_clamped`,
+  `C04_transport_new_any` above). -/
+
+/-- **every sound that can be written down starts, and keeps playing, without a fault**: for ANY
+    `StaticSoundData` — any slice (reaching past the data, inverted, empty), any start position in
+    either direction (reversed at or past the end; an empty sound), any requested loop region (empty and
+    inverted ones are dropped) — `StaticSound::new` succeeds, priming included (`play` / `into_sound`
+    never panic), and after it any number of position steps succeeds (no panic on the audio thread). -/
+theorem C04_any_sound_starts (d : StaticSoundData ℝ) (k : Nat) :
+    ∃ s0 s s', StaticSound.init d = .ok s0 ∧ StaticSound.new d = .ok s ∧ StaticSound.updN k s = .ok s' := by
+  obtain ⟨s0, s, h0, hnew, _, hv⟩ := StaticSound.new_total d
+  obtain ⟨s', hk, _⟩ := StaticSound.updN_total' k s hv
+  exact ⟨s0, s, s', h0, hnew, hk⟩
+
+/-- **reverse with a start position at or past the end** (every reversed empty sound): the play head
+    starts at frame 0 and the transport is playing — one frame (frame 0) of a non-empty sound is played,
+    then the backward step ends the transport; an empty sound plays nothing (`C04_never_outside_slice`:
+    no frame at index 0) and ends at the first step.  Consistent with the forward direction, where a
+    start position past the end plays silence and ends at the first step. -/
+theorem C04_reverse_start_past_end (start n : Nat) (lr : Option (Nat × Nat)) (h : n ≤ start) :
+    ∃ t, Transport.new start lr true n = .ok t ∧ t.position = 0 ∧ t.playing = true
+      ∧ (t.loopRegion = none → t.decrement = .ok { t with playing := false }) := by
+  refine ⟨_, rfl, by simp only [if_true]; omega, rfl, fun hl => ?_⟩
+  rw [decrement_noLoop _ rfl hl]
+  have : n - 1 - start = 0 := by omega
   simp [this]
 
-/-- **slice reaching outside the data**: the lookup indexes out of bounds. -/
-theorem C04_fault_slice_outside_data (frames : Array (Frame ℝ)) (a b i : Nat) (hab : a ≤ b) (hi : i < b - a)
-    (hout : frames.size ≤ i + a) : frameAtIndex i frames (some (a, b)) = .error .indexOOB := by
-  unfold frameAtIndex numFrames
-  have h1 : ¬ b - a ≤ i := by omega
-  simp [hab, h1, hout]
+/-- **a slice reaching past the data is the same sound as the slice clamped to the data, and an
+    inverted slice is the empty sound**: same length, same frame at every index. -/
+theorem C04_slice_clamped (frames : Array (Frame ℝ)) (a b i : Nat) :
+    numFrames frames.size (some (a, b)) = numFrames frames.size (some (a, min b frames.size))
+      ∧ frameAtIndex i frames (some (a, b)) = frameAtIndex i frames (some (a, min b frames.size))
+      ∧ (b ≤ a → numFrames frames.size (some (a, b)) = .ok 0 ∧ frameAtIndex i frames (some (a, b)) = .ok none) := by
+  refine ⟨by simp [numFrames], by simp [frameAtIndex, numFrames], fun hba => ?_⟩
+  have z : min b frames.size - a = 0 := by omega
+  simp [frameAtIndex, numFrames, z]
 
-/-- non-vacuity of the in-domain hypotheses: a 3-frame sound, slice `[1,3)`, loop `[0,2)`. -/
+/-- non-vacuity of the in-domain hypothesis: a 3-frame sound, slice `[1,3)`, loop `[0,2)`. -/
 example : (⟨{}, 1, #[⟨1, 1⟩, ⟨2, 2⟩, ⟨3, 3⟩], some (1, 3), false, SoundCore.new .immediate none, Resampler.new 0,
     ⟨0, some (0, 2), true⟩, 0, Parameter.new (.fixed 0) 0, Parameter.new (.fixed 1) 1, Parameter.new (.fixed 0) 0, 0⟩
       : StaticSound ℝ).InDomain := by
-  unfold StaticSound.InDomain StaticSound.SliceOk Transport.ValidLoop StaticSound.nFrames; simp
+  unfold StaticSound.InDomain Transport.ValidLoop StaticSound.nFrames; simp
 
 end K
